@@ -3,3 +3,4 @@ import IOptModel.Evolvent
 import IOptModel.SearchData
 import IOptModel.Method
 import IOptModel.Process
+import IOptModel.Problems
